@@ -365,6 +365,8 @@ inductive BodyObs
   | none
   | raw (b : Nat)
   | form (kvs : List (Nat × List Nat))
+  /-- round 7: `SetBody(struct)` — the value named `b` marshalled as XML (`xml`) or JSON -/
+  | marsh (xml : Bool) (b : Nat)
   deriving DecidableEq, Repr
 
 structure ReqObs where
@@ -420,6 +422,25 @@ def finishUA (h : AMap) : AMap :=
 /-- `parseRequestHeader`: a client header is used unless the request has values for that key. -/
 def mergeHeaders (c r : AMap) : AMap :=
   c.foldl (fun acc e => if (acc.get e.1).isEmpty then acc.set e.1 e.2 else acc) r
+
+/-- round 7. Content types with a meaning for `handleMarshalBody` (middleware.go): `util.IsXMLType`
+holds of `vCtXml` only among the values the harness draws; every other non-empty value marshals
+as JSON. Body ids from `marshalFrom` on are values given to `SetBody` (struct / pointer / slice),
+marshalled when the request is sent; smaller ids are literal bodies. -/
+def vCtXml : Nat := 903
+def vCtJson : Nat := 904
+def marshalFrom : Nat := 10
+
+/-- `Header.Get(Content-Type)` of one level: the FIRST value; `""` (and no key) read as unset (0). -/
+def firstCT (h : AMap) : Nat :=
+  match h.get hContentType with
+  | v :: _ => if v == vEmpty then 0 else v
+  | [] => 0
+
+/-- `handleMarshalBody`: the content type that picks the marshaller — the REQUEST's own if it has
+one, the client's otherwise; 0 = neither (JSON, and the JSON content type is set). -/
+def marshalCT (c r : AMap) : Nat :=
+  if firstCT r != 0 then firstCT r else firstCT c
 
 /-- `parseRequestURL`: client query first, a request key replaces the client's values. -/
 def mergeQuery (c r : AMap) : AMap :=
@@ -507,11 +528,15 @@ def emit (cl rq : VOwner) (method mode : Nat) (path : List Seg) : Option ReqObs 
   let body : BodyObs :=
     if forbid then .none
     else if !form.isEmpty then .form (dropEmpty (sortKeys form))
+    else if rawBody ≥ marshalFrom then
+      .marsh (marshalCT (cl.val F.headers) (rq.val F.headers) == vCtXml) rawBody
     else if rawBody != 0 then .raw rawBody
     else .none
   let hdr1 : AMap :=
     match body with
     | .form _ => hdr0.set hContentType [vCtForm]
+    | .marsh _ _ =>
+      if marshalCT (cl.val F.headers) (rq.val F.headers) == 0 then hdr0.set hContentType [vCtJson] else hdr0
     | .raw _ => if (hdr0.get hContentType).isEmpty then hdr0.set hContentType [vCtText] else hdr0
     | .none => hdr0
   let hdr2 := finishUA hdr1
